@@ -243,6 +243,8 @@ enum Work {
     Single(Type),
     /// all types derived from this one (one level deeper), and, if `deeper`, two levels deeper
     Derived(Type, bool),
+    /// thorough: constructors applied `n` more times (partners int/text, vector dim 2) to this type
+    Deep(Type, usize),
 }
 
 pub fn run(r: &Report) {
@@ -271,6 +273,7 @@ pub fn run(r: &Report) {
         work.push(Work::Derived(t.clone(), false));
     }
     let mut d3_roots = 0usize;
+    let mut d4_items = 0usize;
     if thorough {
         // every arity-3 tuple / UDT over all natives (quick has the triples over six representatives)
         for t in types::depth1_over(&types::natives(), &[], false) {
@@ -286,9 +289,19 @@ pub fn run(r: &Report) {
             d3_roots += 1;
             work.push(Work::Derived(t, true));
         }
+        // depth 4: constructors applied four times over int / text / varint (partners int/text)
+        let reps4 = vec![types::nat(refv::Native::Int), types::nat(refv::Native::Text), types::nat(refv::Native::Varint)];
+        for t in types::depth1_over(&reps4, &[1, 2], false) {
+            for t2 in types::derived(&t, &int_text, &[1, 2]) {
+                d4_items += 1;
+                work.push(Work::Deep(t2, 2));
+            }
+        }
     }
     r.note("depth1_types", json!(d1.len()));
     r.note("depth3_roots", json!(d3_roots));
+    r.note("depth4_work_items", json!(d4_items));
+    let it4: Vec<Type> = [refv::Native::Int, refv::Native::Text, refv::Native::Varint, refv::Native::Boolean].iter().map(|n| types::nat(*n)).collect();
 
     let types_seen = AtomicU64::new(0);
     let max_depth = AtomicU64::new(0);
@@ -316,11 +329,18 @@ pub fn run(r: &Report) {
         let t0 = std::time::Instant::now();
         match w {
         Work::Single(t) => do_type(&t),
+        Work::Deep(t2, _) => {
+            for t3 in types::derived(&t2, &int_text, &[2]) {
+                for t4 in types::derived(&t3, &int_text, &[2]) {
+                    do_type(&t4);
+                }
+            }
+        }
         Work::Derived(inner, deeper) => {
-            let ds = if deeper { types::derived(&inner, &int_text, &[1, 2]) } else { types::derived(&inner, &partners, &dims_d2) };
+            let ds = if deeper { types::derived(&inner, &it4, &[1, 2]) } else { types::derived(&inner, &partners, &dims_d2) };
             for t2 in ds {
                 if deeper {
-                    for t3 in types::derived(&t2, &int_text, &[2]) {
+                    for t3 in types::derived(&t2, &it4, &[2]) {
                         do_type(&t3);
                     }
                 } else {
@@ -345,7 +365,7 @@ pub fn run(r: &Report) {
     r.counters.add("decoded_canonical_forms_bound_again", st.rebinds.load(Ordering::Relaxed));
     r.note("max_type_depth", json!(max_depth.load(Ordering::Relaxed)));
     r.set_rule(
-        "E-ENUM, dynamic value type. Column types: 20 natives; depth 1 = list/set/vector(dim 0..3) of every native, map of every native pair, tuple+UDT arity 0,1,2 (all), 3 (all triples over int,text,boolean,varint,uuid,duration + (n,int,text)); depth 2 = list/set/vector/map/tuple/UDT constructors over every depth-1 type with partner types {int,text,varint,boolean} (quick) or all natives (thorough), vector dim 0..3; thorough adds all 8000 arity-3 tuples and UDTs over the natives, depth 3 (constructors applied three times, partners int/text) over the six class representatives int/text/boolean/varint/uuid/duration and uses the full native alphabets down to nesting level 2. Values per type: the listed boundary alphabet (numeric MIN/-1/0/1/MAX, NaN payloads, -0.0, multi-byte UTF-8, strings/blobs of 0/1/127/128/16386 bytes, durations at every vint length 1..9, non-normalised and zero-length varints, decimals with negative scale), every container shape (empty, each singleton, pair, triple; every tuple/UDT position x every value, every null pattern, every shorter tuple, every UDT omission pattern, reversed UDT naming order), null, not-set, zero-length empty. Oracle: crate::refvalue (bytes equal incl. length prefix; decode == canonical form). distinct_nontrivial = accepted cases of composite types with a non-null, non-empty value.",
+        "E-ENUM, dynamic value type. Column types: 20 natives; depth 1 = list/set/vector(dim 0..3) of every native, map of every native pair, tuple+UDT arity 0,1,2 (all), 3 (all triples over int,text,boolean,varint,uuid,duration + (n,int,text)); depth 2 = list/set/vector/map/tuple/UDT constructors over every depth-1 type with partner types {int,text,varint,boolean} (quick) or all natives (thorough), vector dim 0..3; thorough adds all 8000 arity-3 tuples and UDTs over the natives, depth 3 (constructors applied three times, partners int/text/varint/boolean) over the six class representatives int/text/boolean/varint/uuid/duration, depth 4 (four times, partners int/text) over int/text/varint, and uses the full native alphabets down to nesting level 2. Values per type: the listed boundary alphabet (numeric MIN/-1/0/1/MAX, NaN payloads, -0.0, multi-byte UTF-8, strings/blobs of 0/1/127/128/16386 bytes, durations at every vint length 1..9, non-normalised and zero-length varints, decimals with negative scale), every container shape (empty, each singleton, pair, triple; every tuple/UDT position x every value, every null pattern, every shorter tuple, every UDT omission pattern, reversed UDT naming order), null, not-set, zero-length empty. Oracle: crate::refvalue (bytes equal incl. length prefix; decode == canonical form). distinct_nontrivial = accepted cases of composite types with a non-null, non-empty value.",
     );
     r.set_exhaustive(true);
     r.assume("vector element widths follow Cassandra 5.0's fixed-length table (boolean 1, int/float 4, bigint/double/timestamp 8, uuid/timeuuid 16; vector of fixed = width x dim); everything else is unsigned-vint length prefixed");
